@@ -391,6 +391,11 @@ func Fetch(
 		fetchedCommits, err := fetchObjects(cmd, db, rs, client, advertised, depth, container)
 		if err != nil {
 			if isStreamError(err) {
+				// start over with a fresh upload-pack session: the packfile that
+				// was cut off is lost, the old session would carry on after it
+				if err := client.ResetCookies(); err != nil {
+					return err
+				}
 				continue
 			}
 			return fmt.Errorf("error fetching objects: %w", err)
